@@ -146,9 +146,16 @@ def _grad_checks(ctx, table, case, fam, way, d, builder, x, gexp, extra="", fd_o
     ctx.case(("grad", fc.case_id(case), way, extra, geom), facet="gradient")
     judge(ctx, case, _sig("gradient", fam, way, d, case, extra), _outcome(table, tfam, False, geom, False),
           fc.call(lambda: dist.gradient(np.array(x))), gexp, d, tag="%s/%s" % (fam, way.split("+")[0]))
+    # part Containers (FamiliesPoint.tla): the same object again with the point in one further admissible container
+    from cuqiverif import c03_point
+    ckind = c03_point.pick(x, tfam) if geom == "identity" else None
+    c03_point.extra(ctx, case, _sig("gradient", fam, way, d, case, extra), _outcome(table, tfam, False, geom, False), dist, x, gexp, d,
+                    ckind, tag="%s/%s" % (tfam, way.split("+")[0]))
     if fd_ok:
         st2, _, _ = fc.call(lambda: dist.enable_FD())
         if st2 == "value":
+            c03_point.extra(ctx, case, _sig("gradientFD", fam, way, d, case, extra), _outcome(table, tfam, False, geom, True), dist, x,
+                            gexp, d, ckind, fd=True, logf=logf, tag="%s/%s" % (tfam, way.split("+")[0]))
             # Cauchy / SmoothedLaplace / Uniform override gradient(): the FD flag has no effect there (trivial repeat)
             ctx.case(("gradFD", fc.case_id(case), way, extra, geom), nontrivial=fam not in ("Cauchy", "SmoothedLaplace", "Uniform"),
                      facet="gradient_fd")
@@ -471,6 +478,9 @@ def check_lik(ctx, case, idx, dom=None):
     gl = chain(fc.vec(case["gradlik"]))
     ctx.case(("gradlik", cid, gtag), facet="likelihood_gradient" + ("_expansion" if dom else ""))
     judge(ctx, case, "gradient/" + base, outcome, fc.call(lambda: lik.gradient(np.array(x))), gl, n, tag="lik%s/%s" % (gtag, mk))
+    from cuqiverif import c03_point
+    ckind = c03_point.pick(x, "lik/" + mk) if dom is None else None       # part Containers: one further admissible container
+    c03_point.extra(ctx, case, "gradient/" + base, outcome, lik, x, gl, n, ckind, tag="lik/%s" % mk)
     pr = case["prior"]
     if pr["kind"] == "none":
         if dom is not None:
@@ -481,6 +491,7 @@ def check_lik(ctx, case, idx, dom=None):
             ctx.case(("gradlikFD", cid), facet="likelihood_gradient_fd")
             judge(ctx, case, "gradientFD/" + base, "ValueFD", fc.call(lambda: lik.gradient(np.array(x))), gl, n, fd=True,
                   logf=ell, tag="lik/%s/FD" % mk)
+            c03_point.extra(ctx, case, "gradientFD/" + base, "ValueFD", lik, x, gl, n, ckind, fd=True, logf=ell, tag="lik/%s" % mk)
         return
     pmean = fc.vec(pr["mean"])
 
@@ -509,12 +520,15 @@ def check_lik(ctx, case, idx, dom=None):
     ctx.case(("gradpost", cid, gtag), facet="posterior_gradient" + ("_expansion" if dom else ""))
     judge(ctx, case, "gradient/posterior/" + pbase, outcome, fc.call(lambda: post.gradient(np.array(x))), gp, n,
           tag="posterior%s/%s" % (gtag, mk))
+    c03_point.extra(ctx, case, "gradient/posterior/" + pbase, outcome, post, x, gp, n, ckind, tag="posterior/%s" % mk)
     if dom is None:
         st2, _, _ = fc.call(lambda: post.enable_FD())
         if st2 == "value":
             ctx.case(("gradpostFD", cid), facet="posterior_gradient_fd")
             judge(ctx, case, "gradientFD/posterior/" + pbase, "ValueFD", fc.call(lambda: post.gradient(np.array(x))), gp, n, fd=True,
                   logf=lp, tag="posterior/%s/FD" % mk)
+            c03_point.extra(ctx, case, "gradientFD/posterior/" + pbase, "ValueFD", post, x, gp, n, ckind, fd=True, logf=lp,
+                            tag="posterior/%s" % mk)
     # posterior with two likelihoods (second: Jacobian model, unit noise, data y2)
     if lognormal or mk not in ("matrix", "jacobian", "geomgrad"):
         return
@@ -547,6 +561,7 @@ def check_lik(ctx, case, idx, dom=None):
                      r[1] if r[0] == "value" else repr(r[1]))
     ctx.case(("gradmulti", cid, gtag), facet="multi_gradient" + ("_expansion" if dom else ""))
     judge(ctx, case, "gradient/multi/" + pbase, outcome, fc.call(lambda: mp.gradient(np.array(x))), gm, n, tag="multi%s/%s" % (gtag, mk))
+    c03_point.extra(ctx, case, "gradient/multi/" + pbase, outcome, mp, x, gm, n, ckind, tag="multi/%s" % mk)
 
 
 def lik_fresh(mkdist, data):
@@ -590,7 +605,8 @@ def run(ctx):
     from cuqiverif import families_common as fc, tlc
     from cuqiverif.core import MachineryError
     from cuqiverif.props import c04
-    from cuqiverif import c03_seq, c03_round5, c03_gallery
+    from cuqiverif import c03_seq, c03_round5, c03_gallery, c03_point
+    pt_jobs = c03_point.start_tlc(ctx)         # FamiliesPoint (container table, probe cases of the bounded families; 1 deviation)
     seq_jobs = c03_seq.start_tlc(ctx)          # Families.reassign + FamiliesSeq (+ its named deviation), in background threads
     r5_jobs = c03_round5.start_tlc(ctx)        # FamiliesSeq parts Siblings (+ named deviation) and Points
     gal_jobs = c03_gallery.start_tlc(ctx)      # FamiliesGallery (class table, Richardson tableau, gallery lattice, stacked pairs; 2 deviations)
@@ -600,11 +616,19 @@ def run(ctx):
         c03_seq.discard_tlc(seq_jobs)
         c03_round5.discard_tlc(r5_jobs)
         c03_gallery.discard_tlc(gal_jobs)
+        c03_point.discard_tlc(pt_jobs)
         raise
     ctx.model_must_hold(res, "Families")
     cases = list(res.cases)
     tlc.cleanup(res)
     table = load_table(cases)
+    try:
+        probes = c03_point.collect_tlc(ctx, pt_jobs)     # sets the container table used next to every gradient call below
+    except BaseException:
+        c03_seq.discard_tlc(seq_jobs)
+        c03_round5.discard_tlc(r5_jobs)
+        c03_gallery.discard_tlc(gal_jobs)
+        raise
     fams = {}
     for c in cases:
         if c.get("kind") in ("family", "gaussbig", "lik"):
@@ -648,6 +672,8 @@ def run(ctx):
     except BaseException:
         c03_gallery.discard_tlc(gal_jobs)
         raise
+    # the evaluation point in every admissible container: probe cases of the bounded families (inside / outside / boundary)
+    c03_point.run(ctx, table, probes)
     n = ctx.traces
     ctx.observations["cases_per_family"] = {f: len(v) for f, v in fams.items()}
     ctx.observations["decision_table_rows"] = len(table)
@@ -699,4 +725,8 @@ def replay(ctx, case):
     if case.get("kind") in ("gallery", "stack", "classrow"):
         from cuqiverif import c03_gallery
         return c03_gallery.replay(ctx, table, case)
+    from cuqiverif import c03_point
+    if case.get("probe") is not None:
+        return c03_point.replay(ctx, table, case)
+    c03_point.collect_tlc(ctx, c03_point.start_tlc(ctx, "quick"))        # the container table of the spec
     dispatch(ctx, table, case, extras=True, idx=case.get("cfg", {}).get("x", 0))
